@@ -20,11 +20,17 @@ S = {
  "datatable": ["a\tb\tc\n1\t2\t3\n4\t5\t6\n", "r1,1,2\nr2,3,4\n", "h1 h2\nx y\n", "a;b\n1;2;3\n", "\n\n", "one\n"],
  "distformat": ["Gamma(n=4,alpha=0.5,beta=0.5)", "Invariant(dist=Gamma(n=3,alpha=1),p=0.1)", "Mixture(probas=(0.3,0.7),dist1=Gamma(n=2),dist2=Beta(n=3,alpha=2,beta=2))",
                 "Simple(values=(1,2,3),probas=(0.2,0.3,0.5))", "Constant(value=1)", "Uniform(n=4,begin=0,end=2)", "Gaussian(n=3,mu=0,sigma=1)", "Exponential(n=4,lambda=2)",
-                "TruncExponential(n=4,lambda=2,tp=3)", "Beta(n=4,alpha=0.5,beta=2)", "Gamma(", "Simple(values=(1,2),probas=(1))"],
+                "TruncExponential(n=4,lambda=2,tp=3)", "Beta(n=4,alpha=0.5,beta=2)", "Gamma(", "Simple(values=(1,2),probas=(1))",
+                # every list-valued / nested argument present but EMPTY or a single character (after valid earlier arguments), and a well-formed 'ranges'
+                "Simple(values=(1,2),probas=)", "Simple(values=,probas=(1))", "Simple(values=(1),probas=(1),ranges=)", "Simple(values=(1),probas=1)", "Simple(values=1,probas=(1))",
+                "Simple(values=(1),probas=(1),ranges=()", "Simple(values=(1,3),probas=(0.5,0.5),ranges=(V1[0;2],V2[2;4]))", "Simple(values=(1),probas=(1),ranges=(V1[0;))",
+                "Mixture(probas=,dist1=Gamma(n=2),dist2=Gamma(n=2))", "Mixture(probas=(1),dist1=)", "Invariant(dist=,p=0.1)", "Invariant(dist=Gamma(n=2),p=)", "Constant(value=)"],
  "interval_desc": ["[0;1]", "]-inf;3.5[", "[1e-3;+inf[", "[;]", "]", "[1;0]", "[ 0; 1] "],
  "numcalc": ["1,2,5-8,10", "seq(from=0,to=1,step=0.1)", "seq(from=1,to=10,size=4)", "0.1,0.2", "5-1", "-", "1-",
              # boundary values in every numeric field: zero, negative, reversed
-             "seq(from=0,to=1,size=-3)", "seq(from=1,to=0,step=-0.5)", "seq(from=2,to=2,size=0)", "seq(from=-1,to=-2,size=1)", "3-1,-2", "0-0"],
+             "seq(from=0,to=1,size=-3)", "seq(from=1,to=0,step=-0.5)", "seq(from=2,to=2,size=0)", "seq(from=-1,to=-2,size=1)", "3-1,-2", "0-0",
+             # arguments present but empty
+             "seq(from=,to=1,step=0.5)", "seq(from=0,to=,size=)", "seq()", "1,,2"],
  "formula": ["1+2*3", "(f+1)/2-exp(0.5)", "-f*log(2)", "((1))", "1++2", "exp(", ")(", "2*-3", ""],
 }
 DICT = ["(", ")", "=", ",", ";", "[", "]", "$(", ")", "*", "\\\\", "#", "\\\"", "e", "inf", "-inf", "+inf", "seq(", "Gamma(", "Beta(", "Invariant(", "Mixture(", "Simple(", "Constant(",
